@@ -1,9 +1,60 @@
 import NmVerif.Proto
-namespace NmVerif.Driver.C02
-open NmVerif NmVerif.Proto
+import NmVerif.Arr
+import NmVerif.Index.Transpose
+import NmVerif.Index.Reshape
+import NmVerif.Index.Flip
+import NmVerif.Index.Tile
+import NmVerif.Index.Pad
+import NmVerif.Index.Take
+import NmVerif.Index.Repeat
+import NmVerif.Index.Broadcast
+/-
+  C02 driver: chains of indexing views as `IxView.comp` of the per-kind models (the objects the theorems
+  `Props.C02.chain_inBounds` / `chain_read_in_buffer` speak about).
 
-def handle : Handler := fun op _args =>
+    chain shape=<dims> ops=<stage>/<stage>/…      (store=, mode= are the harness' business and ignored here)
+      stage = transpose:<axes> | reshape:<to> | tile:<reps> | flip:<axes> | bcast:<shape> | pad:<widths>
+            | take:<indices>:<axis> | repeat:<r>:<axis>
+    answer  `ok shape=<dims> data=<flat source id per element, -1 = fill>` | `nothing` | `unmodelled` (other stage kinds)
+-/
+namespace NmVerif.Driver.C02
+open NmVerif NmVerif.Proto NmVerif.Index
+
+def nats? (l : List Int) : Option (List Nat) := l.mapM (fun x => if x < 0 then none else some x.toNat)
+
+/-- outer `none`: not a modelled stage / malformed; inner `none`: the view is Nothing -/
+def stageView (s : Shape) (stage : String) : Option (Option IxView) :=
+  match stage.splitOn ":" with
+  | ["transpose", ax] => do let ax ← parseInts ax; pure (transposeView s (some ax))
+  | ["reshape", t] => do let t ← parseInts t; pure (reshapeView s t)
+  | ["tile", r] => do let r ← parseInts r; let r ← nats? r; pure (tileView s r)
+  | ["flip", ax] => do let ax ← parseInts ax; pure (flipView s (some ax))
+  | ["bcast", d] => do let d ← parseInts d; let d ← nats? d; pure (broadcastToView s d)
+  | ["pad", w] => do let w ← parseInts w; let w ← nats? w; pure (padView s w)
+  | ["take", ind, ax] => do let ind ← parseInts ind; let ax ← ax.toInt?; pure (takeView s ind (some ax))
+  | ["repeat", r, ax] => do let r ← r.toNat?; let ax ← ax.toInt?; pure (repeatView s r (some ax))
+  | _ => none
+
+/-- stages applied left to right; the accumulated view reads from the leaf array -/
+def chainView (s : Shape) : List String → Option (Option IxView)
+  | [] => none
+  | st :: rest => do
+    let first ← stageView s st
+    rest.foldlM (fun (acc : Option IxView) st =>
+      match acc with
+      | none => some none
+      | some inner => do
+        let outer ← stageView inner.dst st
+        pure (outer.map (fun o => o.comp inner))) first
+
+def handle : Handler := fun op a =>
   match op with
+  | "chain" => orBad do
+      let s ← a.nats "shape"; let ops ← a.get? "ops"
+      match chainView s (ops.splitOn "/") with
+      | none => pure "unmodelled"
+      | some none => pure "nothing"
+      | some (some v) => pure s!"ok shape={fmtNats v.dst} data={fmtInts v.provenance}"
   | _ => none
 
 end NmVerif.Driver.C02
